@@ -117,6 +117,10 @@ Build(k, g) ==
     [] g[1] = "always" -> <<"anyo", Succeed>>
     [] g[1] = "never" -> <<"anyo", FailG>>
     [] g[1] = "closure" -> <<"closure", k, g[2]>>
+    (* cons and empty are plain equalities built when the goal is constructed (src/relation/cons.rs,
+       empty.rs), not closures *)
+    [] g[1] = "call" /\ g[2] = "cons" /\ Len(g[3]) = 3 -> <<"atom", <<"eq", <<"cons", g[3][1], g[3][2]>>, g[3][3]>> >>
+    [] g[1] = "call" /\ g[2] = "empty" /\ Len(g[3]) = 1 -> <<"atom", <<"eq", <<"nil">>, g[3][1]>> >>
     [] g[1] = "call" -> <<"call", k, g[2], g[3]>>
     [] g[1] = "project" -> <<"project", k, g[2], g[3]>>
     [] g[1] = "for" -> <<"everyg", k, g[2], g[3], g[4]>>
